@@ -90,15 +90,23 @@ class VMachine:
             def _get_mock_data(self):
                 return vm._mock_data if vm._mock_data is not None else super()._get_mock_data()
 
-        self.tc = _TC()
-        try:
-            self.tc.setUp()
-        except BaseException as e:  # config errors, asserts during init
+        for attempt in (0, 1, 2):
+            self.tc = _TC()
             try:
-                self._cleanup_loop()
-            finally:
-                shutil.rmtree(self.dir, ignore_errors=True)
-            raise BootError("%s: %s" % (type(e).__name__, e)) from e
+                self.tc.setUp()
+                break
+            except BaseException as e:  # config errors, asserts during init
+                wall_limit = "Start took more than" in str(e)     # MpfTestCase's wall-clock boot limit (loaded host)
+                try:
+                    self._cleanup_loop()
+                finally:
+                    if not wall_limit or attempt == 2:
+                        shutil.rmtree(self.dir, ignore_errors=True)
+                if wall_limit and attempt < 2:
+                    continue                                        # not a property of the configuration: retry
+                if wall_limit:
+                    raise util.InfraError("machine boot exceeded the scaffolding's wall-clock limit three times") from e
+                raise BootError("%s: %s" % (type(e).__name__, e)) from e
         self.machine = self.tc.machine
         return self
 
